@@ -528,6 +528,57 @@ func c20(c *core.Ctx) {
 		c.EndRule()
 	}
 
+	// ---------------------------------------------------------------- R4
+	if c.Rule("R4", "no hidden receiver: no goroutine started by the library statically reaches a receive on a frame channel (a library goroutine that receives ahead of the application is an extra buffer slot)", 2) {
+		n := 0
+		for _, fn := range p.LibFuncs("inprocgrpc") {
+			core.Instrs(fn, func(in ssa.Instruction) {
+				g, ok := in.(*ssa.Go)
+				if !ok {
+					return
+				}
+				n++
+				key := fmt.Sprintf("%s:go#%d:no-receive", core.FuncName(fn), n)
+				var body *ssa.Function
+				if ci := core.InfoOf(&g.Call); ci.Static != nil {
+					body = ci.Static
+				}
+				for _, o := range core.Origins(g.Call.Value) {
+					if mc, ok := o.(*ssa.MakeClosure); ok {
+						body = mc.Fn.(*ssa.Function)
+					}
+				}
+				if body == nil {
+					c.Undecided(key, g.Pos(), "goroutine body cannot be resolved")
+					return
+				}
+				reach := staticReach(p, body)
+				bad := ""
+				for f := range reach {
+					core.Instrs(f, func(x ssa.Instruction) {
+						switch y := x.(type) {
+						case *ssa.Select:
+							for _, st := range y.States {
+								if st.Dir == types.RecvOnly && isFrameChan(st.Chan.Type()) {
+									bad = core.FuncName(f)
+								}
+							}
+						case *ssa.UnOp:
+							if y.Op == token.ARROW && isFrameChan(y.X.Type()) {
+								bad = core.FuncName(f)
+							}
+						}
+					})
+				}
+				c.Check(bad == "", key, g.Pos(), fmt.Sprintf("%d functions statically reachable from the goroutine body, none receives from a frame channel", len(reach)), "a library-started goroutine reaches a frame receive in "+bad+": it drains the channel ahead of the application, so the sender can run further ahead than the one-slot buffer")
+			})
+		}
+		if n < 2 {
+			c.Fail("inprocgrpc:goroutines", token.NoPos, "ANCHOR-MISSING: expected the two server goroutines, found %d go statements", n)
+		}
+		c.EndRule()
+	}
+
 	// ---------------------------------------------------------------- R3
 	if c.Rule("R3", "pending header frames do not add a slot: the header frame is written to the same channel field under the same lock as the data frame", 1) {
 		for _, nt := range streamTypes(p, "ServerStream", "RecvMsg") {
@@ -605,4 +656,30 @@ func replacedWhenNil(fn *ssa.Function, fv ssa.Value, use ssa.Instruction) bool {
 		}
 	}
 	return false
+}
+
+// staticReach: functions reachable from fn through static calls and function
+// literals only (dynamic handler calls are the application's code).
+func staticReach(p *core.Prog, fn *ssa.Function) map[*ssa.Function]bool {
+	seen := map[*ssa.Function]bool{}
+	work := []*ssa.Function{fn}
+	for len(work) > 0 {
+		f := work[len(work)-1]
+		work = work[:len(work)-1]
+		if f == nil || seen[f] || f.Blocks == nil || !p.IsLibFile(f.Pos()) {
+			continue
+		}
+		seen[f] = true
+		core.Instrs(f, func(in ssa.Instruction) {
+			if mc, ok := in.(*ssa.MakeClosure); ok {
+				work = append(work, mc.Fn.(*ssa.Function))
+			}
+			if cc := core.CallOf(in); cc != nil {
+				if ci := core.InfoOf(cc); ci.Static != nil {
+					work = append(work, ci.Static)
+				}
+			}
+		})
+	}
+	return seen
 }
